@@ -1,0 +1,13 @@
+//go:build verif
+// +build verif
+
+package blocklist
+
+import "time"
+
+// VerifSetTimeNow replaces the package clock and returns a function restoring it.
+func VerifSetTimeNow(f func() time.Time) (restore func()) {
+	prev := timeNow
+	timeNow = f
+	return func() { timeNow = prev }
+}
